@@ -264,6 +264,9 @@ impl<T: Clone + Into<Vec<u8>>> FindNodeContext<T> {
             };
         }
 
+        // Recount the pending peers that still count towards the parallelism factor: a peer
+        // that exceeded the timeout must be discounted once, not on every call.
+        let mut pending_responses = 0usize;
         for (peer, instant) in self.pending.values() {
             if instant.elapsed() > self.peer_timeout {
                 tracing::trace!(
@@ -273,9 +276,11 @@ impl<T: Clone + Into<Vec<u8>>> FindNodeContext<T> {
                     elapsed = ?instant.elapsed(),
                     "peer no longer counting towards parallelism factor"
                 );
-                self.pending_responses = self.pending_responses.saturating_sub(1);
+            } else {
+                pending_responses += 1;
             }
         }
+        self.pending_responses = pending_responses;
 
         // At this point, we either have pending responses or candidates to query; and we need more
         // results. Ensure we do not exceed the parallelism factor.
